@@ -254,7 +254,7 @@ func genSmallAlphabet(h *H, maxLen int) {
 
 func init() {
 	campaigns["C11"] = campaign{
-		rule: "cases: (1) Armor62Seal for every payload length 0..140 (0..700 thorough: every residue modulo the 32-byte block and the 15-character word), lengths around the 200-word line break, all three armorable types, brands of length 0,1,7,127,128: output equals the model's, has the specified shape (frame grammar of the spec as a regexp, words <=15 base-62 characters, <=200 per line), equals the streaming encoder under random Write splits, dearmors to the identical payload/brand/header/footer also after two kinds of random re-flowing (runs of space/tab/CR/LF/'>' between words and between payload characters), and is refused by the checker of another type; (2) adversarial texts (mismatching footer brand/type, 129-character brand, >512-character header, missing period, trailing garbage, foreign character, removed payload character, wrong expected type, extra words, byte mutations): model = implementation and the named oracle; (3) EXHAUSTIVE: every string over {'.',' ','0','z','!','>'} up to length 6 (quick) / 7 (thorough) through Armor62Open and, up to length-2, CheckArmor62, plus 4000 random frame-word combinations, model vs implementation (this also ties the hand-written matchers to Go's regexp).",
+		rule: "cases: (1) Armor62Seal for every payload length 0..140 (0..700 thorough: every residue modulo the 32-byte block and the 15-character word), lengths around the 200-word line break, all three armorable types, brands of length 0,1,7,127,128: output equals the model's, has the specified shape (frame grammar of the spec as a regexp, words <=15 base-62 characters, <=200 per line), equals the streaming encoder under random Write splits, dearmors to the identical payload/brand/header/footer also after two kinds of random re-flowing (runs of space/tab/CR/LF/'>' between words and between payload characters), and is refused by the checker of another type; (2) adversarial texts (mismatching footer brand/type, 129-character brand, >512-character header, missing period, trailing garbage, foreign character, removed payload character, wrong expected type, extra words, byte mutations): model = implementation and the named oracle; (3) EXHAUSTIVE: every string over {'.',' ','0','z','!','>'} up to length 6 (quick) / 7 (thorough) through Armor62Open and, up to length-2, CheckArmor62, plus 4000 random frame-word combinations, model vs implementation (this also ties the hand-written matchers to Go's regexp); (4) genuine messages of all four modes through every armored entry point: genuine text accepted, each single frame damage refused.",
 		gen: func(h *H) {
 			genArmor(h)
 			n := 300
@@ -264,6 +264,9 @@ func init() {
 			}
 			genDearmorAdversarial(h, n)
 			genSmallAlphabet(h, ml)
+			// genuine messages of all four modes: every armored entry point accepts the genuine text and
+			// refuses each frame variant
+			genArmoredFrames(h, map[string]bool{"enc": true, "sc": true, "att": true, "det": true}, 2)
 			h.res.ExhNote = "every string over {'.',' ','0','z','!','>'} up to length " + strconv.Itoa(ml) + " through Armor62Open (and CheckArmor62 up to length-2)"
 		},
 	}
